@@ -24,29 +24,29 @@ type shardViol struct {
 }
 
 type shardResult struct {
-	Leg         string            `json:"leg"`
-	Shard       int               `json:"shard"`
-	Evaluations int64             `json:"evaluations"`
-	Distinct    int64             `json:"distinct"` // distinct AND non-trivial (see verdict.Parsed)
-	Accepted    int64             `json:"accepted"`
-	Rejected    int64             `json:"rejected"`
-	Base        int64             `json:"base"`
-	Shapes      int64             `json:"shapes"` // distinct canonical trees among accepted
-	Harness     []shardViol       `json:"harness"`
-	Viol        []shardViol       `json:"viol"`
-	Samples     []string          `json:"samples"`
-	Extra       map[string]int64  `json:"extra"`
-	Capped      bool              `json:"capped"`
+	Leg         string           `json:"leg"`
+	Shard       int              `json:"shard"`
+	Evaluations int64            `json:"evaluations"`
+	Distinct    int64            `json:"distinct"` // distinct AND non-trivial (see verdict.Parsed)
+	Accepted    int64            `json:"accepted"`
+	Rejected    int64            `json:"rejected"`
+	Base        int64            `json:"base"`
+	Shapes      int64            `json:"shapes"` // distinct canonical trees among accepted
+	Harness     []shardViol      `json:"harness"`
+	Viol        []shardViol      `json:"viol"`
+	Samples     []string         `json:"samples"`
+	Extra       map[string]int64 `json:"extra"`
+	Capped      bool             `json:"capped"`
 }
 
 type shardCtx struct {
-	res    shardResult
-	shard  int
-	of     int
-	seen   map[uint64]struct{}
-	shapes map[uint64]struct{}
-	viol   map[string]*shardViol
-	harn   map[string]*shardViol
+	res        shardResult
+	shard      int
+	of         int
+	seen       map[uint64]struct{}
+	shapes     map[uint64]struct{}
+	viol       map[string]*shardViol
+	harn       map[string]*shardViol
 	preSharded bool // the leg assigns whole base cases to shards itself
 	deadline   time.Time
 	tick       int
@@ -228,20 +228,23 @@ func legBytes(c *shardCtx, thorough bool) {
 	}
 	c.res.Extra["max_len"] = int64(maxLen[0])
 	c.res.Extra["max_len_inner_contexts"] = int64(maxLen[2])
-	var rec func(prefix string, depth int)
-	rec = func(prefix string, depth int) {
-		for i, ctx := range byteContexts {
-			if depth <= maxLen[i] {
-				c.eval(ctx[0]+prefix+ctx[1], "")
+	// by increasing length (so that an internal deadline only ever cuts the longest strings)
+	var rec func(prefix string, depth, target int)
+	rec = func(prefix string, depth, target int) {
+		if depth == target {
+			for i, ctx := range byteContexts {
+				if depth <= maxLen[i] {
+					c.eval(ctx[0]+prefix+ctx[1], "")
+				}
 			}
-		}
-		c.res.Base++
-		if depth == maxLen[0] {
+			c.res.Base++
 			return
 		}
 		for _, s := range byteAlphabet {
-			rec(prefix+s, depth+1)
+			rec(prefix+s, depth+1, target)
 		}
 	}
-	rec("", 0)
+	for l := 0; l <= maxLen[0]; l++ {
+		rec("", 0, l)
+	}
 }
